@@ -138,6 +138,31 @@ def context_data(node, defs, depth=0):
     return al[:2] if len(al) > 1 else al
 
 
+def _deep_records(n):
+    """n records nested inside one another, each with one int and the next level."""
+    s = {"type": "record", "name": "D%d" % n, "fields": [{"name": "v", "type": "int"}]}
+    for i in range(n - 1, 0, -1):
+        s = {"type": "record", "name": "D%d" % i, "fields": [{"name": "v", "type": "int"}, {"name": "next", "type": s}]}
+    return s
+
+
+def _deep_rar(n):
+    """record -> array -> record -> array ... n levels."""
+    s = {"type": "record", "name": "L%d" % n, "fields": [{"name": "leaf", "type": "string"}]}
+    for i in range(n - 1, 0, -1):
+        s = {"type": "record", "name": "L%d" % i, "fields": [{"name": "kids", "type": {"type": "array", "items": s}}]}
+    return s
+
+
+def _deep_value(schema):
+    t = schema["type"] if isinstance(schema, dict) else schema
+    if t == "record":
+        return {f["name"]: _deep_value(f["type"]) for f in schema["fields"]}
+    if t == "array":
+        return [_deep_value(schema["items"])]
+    return {"int": 7, "string": "leaf"}[t]
+
+
 SPECIAL = [
     ("second-use", {"type": "record", "name": "R", "fields": [{"name": "a", "type": family.R1()}, {"name": "b", "type": "R1"}, {"name": "c", "type": {"type": "array", "items": "R1"}},
                                                               {"name": "d", "type": ["null", "R1"]}, {"name": "e", "type": {"type": "map", "values": "R1"}}]}),
@@ -183,6 +208,14 @@ SPECIAL = [
                                {"type": "record", "name": "Address", "namespace": "geo", "fields": [{"name": "city", "type": "string", "default": "nowhere"}]},
                                {"type": "enum", "name": "x.y.Kind", "symbols": ["A"]}, {"type": "enum", "name": "y.Kind", "symbols": ["B", "A"]}]},
         {"name": "v", "type": ["geo.Address", "shop.geo.Address", "null"]}]}),
+    ("null-branch-in-object-form", {"type": "record", "name": "ON", "fields": [
+        {"name": "u", "type": [{"type": "null"}, "string"]}, {"name": "v", "type": ["int", {"type": "null", "note": "x"}]},
+        {"name": "w", "type": {"type": "array", "items": [{"type": "null"}, {"type": "record", "name": "W", "fields": [{"name": "x", "type": "int"}]}]}}]}),
+    ("deep-arrays", {"type": "array", "items": {"type": "array", "items": {"type": "array", "items": {"type": "array", "items": {"type": "array", "items": {"type": "array", "items":
+                    {"type": "array", "items": {"type": "array", "items": {"type": "array", "items": {"type": "array", "items": {"type": "array", "items": {"type": "array", "items":
+                    {"type": "array", "items": {"type": "array", "items": {"type": "array", "items": {"type": "array", "items": {"type": "array", "items": {"type": "array", "items": "int"}}}}}}}}}}}}}}}}}}),
+    ("deep-records", _deep_records(40)),
+    ("deep-record-array-record", _deep_rar(14)),
     ("deep-map-values", {"type": "map", "values": {"type": "record", "name": "Person", "fields": [
         {"name": "name", "type": "string"},
         {"name": "contact", "type": {"type": "record", "name": "Contact", "fields": [{"name": "email", "type": "string"}, {"name": "phone", "type": ["null", "string", {"type": "array", "items": "int"}]}]}}]}}),
@@ -229,6 +262,11 @@ def special_data(label, node, defs):
     if label == "suffix-full-names-in-union":
         return [{"u": ("geo.Address", {"city": "c"}), "v": ("shop.geo.Address", {"street": "s"})}, {"u": ("shop.geo.Address", {"street": "s"}), "v": ("geo.Address", {"city": "c"})},
                 {"u": ("y.Kind", "A"), "v": None}, {"u": ("x.y.Kind", "A"), "v": ("geo.Address", {"city": ""})}, {"u": None, "v": ("geo.Address", {})}]
+    if label == "null-branch-in-object-form":
+        return [{"u": None, "v": None, "w": [None, {"x": 1}]}, {"u": "s", "v": 5, "w": []}]
+    if label in ("deep-arrays", "deep-records", "deep-record-array-record"):
+        raw_ = dict(SPECIAL)[label]
+        return [_deep_value(raw_)]
     if label == "deep-map-values":
         return [{"a": {"name": "n", "contact": {"email": "e", "phone": "555"}}}, {"a": {"name": "n", "contact": {"email": "e", "phone": None}}, "b": {"name": "m", "contact": {"email": "f", "phone": [1, 2]}}},
                 {"x": {"name": "", "contact": {"email": "", "phone": "1"}}, "y": {"name": "q", "contact": {"email": "r", "phone": "2"}}, "z": {"name": "s", "contact": {"email": "t", "phone": None}}}, {}]
